@@ -8,6 +8,7 @@ import (
 	"math"
 	"math/rand"
 	"os"
+	"runtime"
 	"sort"
 	"strings"
 	"testing"
@@ -184,7 +185,7 @@ func observeUnguarded(c vt.Case) (ev vt.Event) {
 	ev = vt.Event{"next": [][]int64{}, "seeks": []any{}, "err": ""}
 	defer func() {
 		if r := recover(); r != nil {
-			ev["err"] = fmt.Sprintf("panic: %v", r)
+			ev["err"] = fmt.Sprintf("panic: %v at %s", r, panicSite())
 		}
 	}()
 	it, err := dedupIterator(reps, src, f)
@@ -381,4 +382,22 @@ func allTLCCases(t testing.TB) []vt.Case {
 		out = append(out, cs...)
 	}
 	return out
+}
+
+// panicSite names the innermost non-runtime frames of a recovered panic (for the err field).
+func panicSite() string {
+	pc := make([]uintptr, 24)
+	n := runtime.Callers(3, pc)
+	fr := runtime.CallersFrames(pc[:n])
+	var out []string
+	for {
+		f, more := fr.Next()
+		if !strings.HasPrefix(f.Function, "runtime.") {
+			out = append(out, fmt.Sprintf("%s:%d", f.Function, f.Line))
+		}
+		if !more || len(out) >= 4 {
+			break
+		}
+	}
+	return strings.Join(out, " < ")
 }
